@@ -107,9 +107,18 @@ def k5_case(ctx, inst, suite="K5.flow_explained"):
         ctx.rep.count(suite, inst, nontrivial=False, hist=[cls, "ValueError"]); return None
     if not solved:
         ctx.rep.count(suite, inst, nontrivial=False, hist=[cls, "unsolved"]); return None
-    sol = m.get_solution()
-    if sol is None:          # (C18 finding: first call may return None) ask again
+    try:
         sol = m.get_solution()
+        if sol is None:          # (C18 finding: first call may return None) ask again
+            sol = m.get_solution()
+    except Exception as e:               # solved, and then no decomposition: the input that does it is the replay
+        from fpv import common as _c
+        if isinstance(e, _c.Infra):
+            raise
+        ctx.rep.count(suite, inst, nontrivial=True, hist=[cls, "get_solution raised"])
+        ctx.violation(f"{cls}.solve() reported solved but get_solution() raised {type(e).__name__}: {str(e)[:160]}", inst,
+                      site=f"{cls}.get_solution:exception")
+        return None
     key = models.route_key(cls)
     route = "greedy" if getattr(m, "external_solution_paths", None) is not None or \
         getattr(getattr(m, "fd_model", None), "external_solution_paths", None) is not None else \
@@ -171,6 +180,7 @@ def run(ctx):
         k5_case(ctx, inst, suite="K5.ignored")
     large_value_cases(ctx)
     nearly_conserving_cases(ctx)
+    fractional_cases(ctx, ctx.n(16, 160))
 
 
 def large_instance(rng, cls):
@@ -214,7 +224,38 @@ def nearly_conserving_cases(ctx, suite="K5.nearly_conserving"):
         k5_case(ctx, inst, suite=suite)
 
 
+def fractional_cases(ctx, n, suite="K5.fractional_flow_int_weights", rng=None):
+    """weight_type=int on flow values with a fractional part whose integer parts alone are decomposable (a planted integer
+    flow plus 1/2 along one source-to-sink route): no integer-weighted decomposition explains such values exactly, so a
+    model may be unsolved or reject - but whatever it reports as solved is judged like any other answer"""
+    import networkx as nx
+    rng = rng or ctx.rng
+    for it in range(n):
+        cls = rng.choice(["kFlowDecomp", "MinFlowDecomp", "kFlowDecompCycles", "MinFlowDecompCycles"])
+        inst = fd_instance(rng, cls)
+        inst["weight_type"] = "int"
+        inst.pop("given_weights", None)
+        inst["options"] = {"optimize_with_greedy": False} if cls in ("kFlowDecomp", "MinFlowDecomp") else {}
+        G = nx.DiGraph(); G.add_nodes_from(inst["nodes"]); G.add_edges_from(tuple(e) for e in inst["edges"])
+        srcs = [v for v in G if G.in_degree(v) == 0]; snks = [v for v in G if G.out_degree(v) == 0]
+        route = None
+        for s_ in srcs:
+            for t_ in snks:
+                if nx.has_path(G, s_, t_):
+                    route = nx.shortest_path(G, s_, t_); break
+            if route:
+                break
+        if not route or len(route) < 2:
+            continue
+        on = set(zip(route[:-1], route[1:]))
+        inst["flow"] = [[u, v, qstr(frac(q) + (Fraction(1, 2) if (u, v) in on else 0))] for u, v, q in inst["flow"]]
+        if "k" in inst:
+            inst["k"] = inst["k"] + 1
+        k5_case(ctx, inst, suite=suite)
+
+
 def search(ctx):
+    fractional_cases(ctx, 60, suite="search.fractional", rng=random.Random(202))
     rng = random.Random(99)
     for cls in ["kFlowDecomp", "MinFlowDecomp", "kFlowDecompCycles", "MinFlowDecompCycles"]:
         for it in range(60):
